@@ -37,6 +37,11 @@ DEATH_IS_VIOLATION = True
 B64 = "ABCDEFGHIJKLMNOPQRSTUVWXYZabcdefghijklmnopqrstuvwxyz0123456789-_"
 
 
+def shard_env(shard, tier):
+    """every other shard runs with assert statements stripped (python -O): what an assert guards must not be what keeps a TypeError away"""
+    return {"PYTHONOPTIMIZE": "1"} if shard % 2 == 1 else {}
+
+
 def shards(tier):
     return 16
 
